@@ -75,4 +75,13 @@ VARIANTS = [
     dict(name="round2: finder models self, indices applied to tree", kind="break", file=CORE,
          old="        sf = SliceFinder(\n            tree,", new="        sf = SliceFinder(\n            self,",
          expect=("C07-APPLY", "same-tree")),
+    dict(name="round4: 'only' tested after the truthiness test", kind="break", file=SL,
+         old="        if allow_outer == \"only\":\n            # invert so only outer indices are allowed\n            self.forbidden = set(self.cost0.size_dict) - self.forbidden\n        elif allow_outer:  # is True\n            # no restrictions\n            self.forbidden = ()\n",
+         new="        if allow_outer:\n            self.forbidden = ()\n        elif allow_outer == \"only\":\n            self.forbidden = set(self.cost0.size_dict) - self.forbidden\n",
+         expect=("C07-FORBID", "option:allow_outer")),
+    dict(name="round4: sliced set extended with the bare label", kind="break", file=SL,
+         old="            next_ix_sl = ix_sl | frozenset([ix])", new="            next_ix_sl = ix_sl.union(ix)",
+         expect=("C07-FORBID", "element")),
+    dict(name="twin: sliced set extended with a one-element tuple", kind="twin", file=SL,
+         old="            next_ix_sl = ix_sl | frozenset([ix])", new="            next_ix_sl = ix_sl.union((ix,))"),
 ]
